@@ -203,6 +203,31 @@ let () =
                | None -> print_endline "undecodable"))
          | _ -> print_endline "noroots");
         flush stdout
+      | ["seqreads"; cmpid; name; nops; hexfile] ->
+        (* the ReadAt calls of a sequence of lookups / mutations on a freshly opened store, call by call *)
+        let f = bytes_of_hex hexfile in
+        let name = bytes_of_hex name in
+        let nops = int_of_string nops in
+        let ops = List.init nops (fun _ ->
+          match String.split_on_char ' ' (input_line stdin) with
+          | ["get"; k; wv] -> SGet (bytes_of_hex k, wv = "t")
+          | ["min"; wv] -> SMin (wv = "t")
+          | ["max"; wv] -> SMax (wv = "t")
+          | ["set"; k; v; prio] -> SSet (bytes_of_hex k, bytes_of_hex v, z_of_int (int_of_string prio))
+          | ["del"; k] -> SDel (bytes_of_hex k)
+          | _ -> raise (Unsupported "seqreads op")) in
+        let show rs = String.concat " " ("r" :: List.map (fun (Rd (o, n)) -> Printf.sprintf "%d:%d" (int_of_z o) (int_of_z n)) rs) in
+        (match scan f (blen f) with
+         | ScanFound (e, m) ->
+           (match List.assoc_opt name m with
+            | None -> print_endline "nocoll"
+            | Some root ->
+              (match seq_reads_file (cmp_of (nat_of_int (int_of_string cmpid))) f root e ops with
+               | Some rss -> List.iter (fun rs -> print_endline (show rs)) rss
+               | None -> print_endline "undecodable"))
+         | _ -> print_endline "noroots");
+        print_endline "END";
+        flush stdout
       | ["openreads"; hexfile] ->
         let rs = open_reads (bytes_of_hex hexfile) in
         print_endline (String.concat " " ("r" :: List.map (fun (Rd (o, n)) -> Printf.sprintf "%d:%d" (int_of_z o) (int_of_z n)) rs));
